@@ -124,7 +124,11 @@ CLAIMED["C01"] = {
     "text": "Coq theorems: wrapping keeps the word sequence and changes nothing but the head of later lines (escape); the escaped form "
             "of ANY whitespace-free word is not a block opener according to a CommonMark line-start specification (Model/BlockStart.v: "
             "list markers, ATX headings, quotes, fences, rules, setext underlines), hence no wrapped line after the first begins a block, "
-            "for all word lists, widths and columns; code spans and fences are delimited adequately. The unguarded statement (first "
+            "for all word lists, widths and columns; code spans and fences are delimited adequately. Read-back theorems against executable "
+            "specifications of a CommonMark/GFM reader (Model/InlineRead.v, BlockRead.v, validated against Marko on every run): what the renderer "
+            "writes for a code span, a link destination, a link title, a fenced code block (every content), an ATX heading, an ordered-list "
+            "marker (every number below 10^9) and a table row (every cell content) is read back as exactly what the parser had handed over, "
+            "and the delimiter row keeps each alignment. The unguarded statement (first "
             "line of each wrap call) is refuted with a witness (Findings/C01_refuted.v). The whole renderer/transform/wrapper "
             "pipeline is modelled and compared with fill_markdown on generated documents; the specification is validated against "
             "Marko; the end-to-end claim is decided by re-parsing input and output of the implementation and comparing the trees "
@@ -163,7 +167,9 @@ CLAIMED["C04"] = {
             "-- tree shape, every code block, code span, HTML, escaped character, footnote label, link/image destination and title, table "
             "alignment -- for EVERY rewrite function (so independently of the typography code), including the coalescing of text across "
             "soft breaks; smart_quotes copies template tags at the same positions; fences and code-span delimiters are adequate for every "
-            "content. The renderer/wrapper pipeline is modelled and compared with fill_markdown; on the implementation the sequence of "
+            "content; in every container a code block is written as the fence line, each content line verbatim under the continuation prefix and "
+            "the closing fence; code span, destination, title, fence language word and fenced block are read back by an executable reader "
+            "specification (validated against Marko each run) as exactly the literal handed over. The renderer/wrapper pipeline is modelled and compared with fill_markdown; on the implementation the sequence of "
             "literal spans (code exactly; spans, tags, HTML, titles up to whitespace runs) of the output is compared with that of the "
             "parser input on documents built for the purpose (fence-like / prefix-like / blank code lines in ten container nestings, "
             "paragraphs dense with spans, tags, URLs, titles under typography on).",
